@@ -22,6 +22,11 @@ def parseAddr (s : String) : Option Addr :=
   | [a, b] => some { s := unesc a, ok := b = "1" }
   | _ => none
 
+/-- the ACCOUNT behind an address token: bech32 admits an all-upper-case spelling, the SDK decodes
+    both spellings to the same account (`AccAddress.String()` is the lower-case one) -/
+def parseAcct (s : String) : Option Addr :=
+  (parseAddr s).map fun a => if a.ok then { a with s := a.s.toLower } else a
+
 def trackAddr (w : W) (a : Addr) : W := if a.ok then track w a.s else w
 
 /-- coins with optional (nil) amounts: `-` = nil slice, `[d=5,e=-]` -/
@@ -166,23 +171,23 @@ def step (w : W) (toks : List String) : W × String :=
     | some o => runMsg (trackAddr w o) (.withdraw o)
     | none => (w, "bad-op")
   | ["v.send", owner, to, pool, amt, restart] =>
-    match parseAddr owner, parseAddr to, optInt? amt with
+    match parseAddr owner, parseAcct to, optInt? amt with
     | some o, some t, some a => runMsg (trackAddr (trackAddr w o) t) (.send o t (unesc pool) a (restart = "1"))
     | _, _, _ => (w, "bad-op")
   | ["v.createVA", src, to, coins, ss, es] =>
-    match parseAddr src, parseAddr to, parseOptCoins coins, int? ss, int? es with
+    match parseAcct src, parseAcct to, parseOptCoins coins, int? ss, int? es with
     | some f, some t, some c, some ss, some es => runMsg (trackAddr (trackAddr w f) t) (.createVA f t c ss es)
     | _, _, _, _, _ => (w, "bad-op")
   | ["v.split", src, to, coins] =>
-    match parseAddr src, parseAddr to, parseOptCoins coins with
+    match parseAcct src, parseAcct to, parseOptCoins coins with
     | some f, some t, some c => runMsg (trackAddr (trackAddr w f) t) (.split f t c)
     | _, _, _ => (w, "bad-op")
   | ["v.move", src, to] =>
-    match parseAddr src, parseAddr to with
+    match parseAcct src, parseAcct to with
     | some f, some t => runMsg (trackAddr (trackAddr w f) t) (.move f t)
     | _, _ => (w, "bad-op")
   | "v.moveDenoms" :: src :: to :: denoms =>
-    match parseAddr src, parseAddr to with
+    match parseAcct src, parseAcct to with
     | some f, some t => runMsg (trackAddr (trackAddr w f) t) (.moveDenoms f t (denoms.map unesc))
     | _, _ => (w, "bad-op")
   | ["v.q.pools", owner] =>
